@@ -353,6 +353,14 @@ func TestVerifC20(t *testing.T) {
 		var archive []byte
 		var facts map[string]*c20GroupFacts
 		exportOK := false
+		if ai%2 == 1 {
+			// this node has been exported before (a periodic backup): the export that counts is not its first
+			var earlier bytes.Buffer
+			if err := svcA.export(ctx, &earlier); err != nil {
+				rep.Violate("C20/export-error", err.Error(), tag)
+			}
+			rep.Count("accounts_exported_before", 1)
+		}
 		for try := 0; try < 10 && !exportOK; try++ {
 			before := collect()
 			var buf bytes.Buffer
@@ -658,6 +666,9 @@ func TestVerifC20(t *testing.T) {
 			"account-key-only":  func(ss secretstore.SecretStore) { _, _ = ss.GetAccountPrivateKey() },
 			"proof-key-only":    func(ss secretstore.SecretStore) { _, _ = ss.GetAccountProofPublicKey() },
 			"member-of-a-group": func(ss secretstore.SecretStore) { g, _, _ := NewGroupMultiMember(); _, _ = ss.GetOwnMemberDeviceForGroup(g) },
+			// the account the store already holds is the very account of the archive (its keys were imported before, as
+			// after an earlier restore of the same archive): still "a store that already holds an account"
+			"the-archive's-own-account": func(ss secretstore.SecretStore) { _ = ss.ImportAccountKeys(keyA, keyProofA) },
 		} {
 			nU := c20FreshNode(t, mn)
 			use(nU.ss)
